@@ -15,7 +15,7 @@ import numpy as np
 import core
 import textfmt as tf
 from core import Fraction, frac, rat
-from translate import formats
+from translate import formats, dfcols
 
 warnings.filterwarnings("ignore", category=RuntimeWarning)
 RULE = ("cases = trajectory/result objects with doubles needing 17 digits (neighbours of powers of 2 and 10, random bit patterns), "
@@ -23,6 +23,13 @@ RULE = ("cases = trajectory/result objects with doubles needing 17 digits (neigh
         "variant (TUM/KITTI x path/handle, result zip x path/handle x with/without trajectories, DataFrame, ROS1 bag); every token "
         "checked against the literal grammar and closeness 2^-55, every parsed value against rne(parseDec token); outputs compared "
         "as bit patterns; non-trivial = more than one pose or a non-ASCII / escaped info string; distinct by content hash")
+MODELLED = ["evo/tools/file_interface.py:write_tum_trajectory_file", "evo/tools/file_interface.py:read_tum_trajectory_file",
+            "evo/tools/file_interface.py:write_kitti_poses_file", "evo/tools/file_interface.py:read_kitti_poses_file",
+            "evo/tools/file_interface.py:csv_read_matrix", "evo/tools/file_interface.py:save_res_file",
+            "evo/tools/file_interface.py:load_res_file", "evo/tools/file_interface.py:write_bag_trajectory",
+            "evo/tools/file_interface.py:read_bag_trajectory", "evo/tools/pandas_bridge.py:trajectory_to_df",
+            "evo/tools/pandas_bridge.py:df_to_trajectory", "evo/core/result.py:Result.add_np_array",
+            "evo/core/result.py:Result.add_trajectory"]
 TMP = None
 MODEL_ROWS = 4000        # rows of a huge file that are also pushed through the Lean driver
 
@@ -146,6 +153,20 @@ def gen_cases(ctx):
                 trajs["path"] = {"type": "kitti", "mats": gen_mats(r, n)}
         yield {"kind": "result", "variant": r.choice(["h", "p"]), "load_traj": r.random() < 0.6, "info": info, "stats": statsd,
                "arrays": arrays, "trajs": trajs}
+    tnames = ["traj_est", "traj_ref", "位置", "tr é", "a.b", ".hidden", "x.tum", "y.npy", "z.kitti", "名前 with space",
+              "emoji\U0001F600", "UPPER.TUM", "t.", "info.json", "stats"]
+    anames = ["error_array", "timestamps", "dist é", "a.npy", "b.tum", "seconds_from_start", "位置", "c.kitti", "info.json"]
+    for _ in range(150 if not th else 600):
+        k = r.choice([2, 2, 3, 4])
+        lens = sorted(r.sample([1, 2, 3, 4, 6, 9, 14, 20], k), reverse=True)
+        if r.random() < 0.25:
+            r.shuffle(lens)
+        trajs = {}
+        for name, n in zip(r.sample(tnames, k), lens):
+            trajs[name] = {"type": "tum", **gen_traj(r, n)} if r.random() < 0.65 else {"type": "kitti", "mats": gen_mats(r, n)}
+        arrays = {name: [hard_double(r) for _ in range(r.randint(1, 5))] for name in r.sample(anames, r.randint(1, 3))}
+        yield {"kind": "result", "variant": r.choice(["h", "p"]), "load_traj": r.random() < 0.85, "info": {"title": rand_string(r)},
+               "stats": {"rmse": hard_double(r)}, "arrays": arrays, "trajs": trajs, "multi": True}
     for _ in range(250 if not th else 1000):
         n = r.choice([1, 2, 5, 40])
         c = {"kind": "df", "type": r.choice(["tum", "kitti"])}
@@ -284,7 +305,8 @@ def impl_result(c):
             "stats_types": {k: type(v).__name__ for k, v in back.stats.items()},
             "arrays": {k: {"dtype": str(a.dtype), "shape": list(a.shape), "bits": [tf.bits(v) for v in a.flatten()]}
                        for k, a in back.np_arrays.items()},
-            "trajs": {k: traj_bits(t) for k, t in back.trajectories.items()}}
+            "trajs": {k: traj_bits(t) for k, t in back.trajectories.items()},
+            "array_order": list(back.np_arrays.keys()), "traj_order": list(back.trajectories.keys())}
 
 
 @guarded
@@ -317,7 +339,14 @@ def impl_bag(c):
         fi.write_bag_trajectory(w, tr, "/traj", frame_id=c["frame"])
     with Reader(p) as rd:
         back = fi.read_bag_trajectory(rd, "/traj")
-    return {"status": "ok", "back": traj_bits(back), "frame": back.meta.get("frame_id")}
+    from rosbags.typesys import get_typestore, Stores
+    ts = get_typestore(Stores.ROS1_NOETIC)
+    hdr = []
+    with Reader(p) as rd:
+        for conn, _, raw in rd.messages():
+            m = ts.deserialize_ros1(raw, conn.msgtype)
+            hdr.append([int(m.header.stamp.sec), int(m.header.stamp.nanosec)])
+    return {"status": "ok", "back": traj_bits(back), "frame": back.meta.get("frame_id"), "hdr": hdr}
 
 
 def impl_bagstamps(c):
@@ -390,7 +419,15 @@ def model_lines(c, impl):
             member = name + (".tum" if t["type"] == "tum" else ".kitti")
             if member in impl["members"]:
                 ls += text_lines(t["type"], impl["members"][member], want_bits(t)["rows"])
-        return ls
+        ls.append("C06 zip %d %d %s %d %s" % (1 if c["load_traj"] else 0, len(c["arrays"]), " ".join(tf.hexs(n) for n in c["arrays"]),
+                                             len(c["trajs"]), " ".join(("t " if t["type"] == "tum" else "k ") + tf.hexs(n) for n, t in c["trajs"].items())))
+        return [" ".join(l.split()) for l in ls]
+    if k == "df":
+        n = len(c["stamps"])
+        vals = []
+        for i in range(n):
+            vals += ([c["stamps"][i]] if c["type"] == "tum" else []) + c["xyz"][i] + c["quat"][i]
+        return ["C06 df %s %d %s" % ("t" if c["type"] == "tum" else "p", n, " ".join(rat(v) for v in vals))]
     if k == "bag" or k == "bagstamps":
         return [f"C06 bag {rat(s)}" for s in c["stamps"]]
     if k == "rne":
@@ -456,7 +493,7 @@ def judge(ctx, c, impl, outs):
     elif k == "result":
         judge_result(ctx, c, impl, outs)
     elif k == "df":
-        judge_df(ctx, c, impl)
+        judge_df(ctx, c, impl, outs)
     elif k == "bag":
         judge_bag(ctx, c, impl, outs)
     elif k == "bagstamps":
@@ -529,6 +566,25 @@ def judge_result(ctx, c, impl, outs):
             pos += 2
         else:
             ctx.mismatch(c, f"archive has no member {member}", impl["names"], member)
+    # ---- correspondence: member layout of the archive
+    zp = [x.strip() for x in outs[pos].split("|")] if pos < len(outs) else ["NONE"]
+    if zp[0] == "NONE" or len(zp) != 4:
+        ctx.mismatch(c, "model cannot load the archive layout", impl["names"], outs[pos] if pos < len(outs) else None)
+    else:
+        m_members = [unhex(h) for h in zp[0].split()]
+        m_arr = [unhex(h) for h in zp[1].split()]
+        m_trj = [unhex(h) for h in zp[2].split()]
+        if m_members != impl["names"]:
+            ctx.mismatch(c, "archive member names/order differ from Cont.saveRes", impl["names"], m_members)
+        if m_arr != impl["array_order"]:
+            ctx.mismatch(c, "arrays come back under other names/order than Cont.loadRes", impl["array_order"], m_arr)
+        if m_trj != impl["traj_order"]:
+            ctx.mismatch(c, "trajectories come back under other names/order than Cont.loadRes", impl["traj_order"], m_trj)
+        if zp[3] != "1":
+            ctx.mismatch(c, "model: a member comes back under a different name", None, outs[pos])
+    if c.get("multi"):
+        lens = [len(impl["members"].get(n + (".tum" if t["type"] == "tum" else ".kitti"), "")) for n, t in c["trajs"].items()]
+        ctx.count("branch", "result:multi:" + ("decreasing-text" if any(b < a for a, b in zip(lens, lens[1:])) else "non-decreasing-text"))
     ctx.count("branch", "result:" + ("with-traj" if c["trajs"] else "no-traj") + (":loaded" if c["load_traj"] else ":not-loaded"))
     nontrivial = any(not (v.isascii() and v.isprintable()) or '"' in v or "\\" in v for v in c["info"].values()) or bool(c["trajs"])
     ctx.record(c, nontrivial)
@@ -538,8 +594,22 @@ def unhex(h):
     return "" if h == "-" else bytes.fromhex(h).decode("utf-8")
 
 
-def judge_df(ctx, c, impl):
+def judge_df(ctx, c, impl, outs):
     n = len(c["stamps"])
+    parts = [x.strip() for x in outs[0].split("|")]
+    m_names = parts[0].split(",")
+    if m_names != impl["columns"]:
+        ctx.mismatch(c, "DataFrame columns differ from the model (names/order)", impl["columns"], m_names)
+    else:
+        m_index = None if parts[1] == "RANGE" else [core.parse_rat(t) for t in parts[1].split()]
+        e_index = None if c["type"] != "tum" else [frac(tf.from_bits(b)) for b in impl["index"]]
+        if m_index != e_index:
+            ctx.mismatch(c, "DataFrame index differs from the model", impl["index"][:3], parts[1][:60])
+        for name, colp in zip(m_names, parts[2:2 + len(m_names)]):
+            if [core.parse_rat(t) for t in colp.split()] != [frac(tf.from_bits(b)) for b in impl["cols"][name]]:
+                ctx.mismatch(c, f"DataFrame column {name} differs from the model's slot", None, None)
+        if parts[-1] != "1":
+            ctx.mismatch(c, "model df_to_trajectory(trajectory_to_df(t)) != t", None, outs[0][-20:])
     slot = {"x": ("xyz", 0), "y": ("xyz", 1), "z": ("xyz", 2), "qw": ("quat", 0), "qx": ("quat", 1), "qy": ("quat", 2), "qz": ("quat", 3)}
     for col, (arr, j) in slot.items():
         if impl["cols"][col] != [tf.bits(c[arr][i][j]) for i in range(n)]:
@@ -575,6 +645,15 @@ def judge_bag(ctx, c, impl, outs):
             mm = m.split()
             if len(mm) != 3 or core.parse_rat(mm[2]) != t2:
                 ctx.mismatch(c, f"bag stamp {tf.from_bits(rw[0])!r}: evo reads {tf.from_bits(rg[0])!r}, model {m}", tf.from_bits(rg[0]), m)
+                break
+    if len(impl["hdr"]) == len(want["rows"]):
+        for i, ((sec, ns), rw, m) in enumerate(zip(impl["hdr"], want["rows"], outs)):
+            mm = m.split()
+            if mm[:2] != [str(sec), str(ns)]:
+                ctx.mismatch(c, f"bag header stamp of pose {i}: evo ({sec}, {ns}), model {mm[:2]}", [sec, ns], mm[:2])
+                break
+            if abs(Fraction(sec) + Fraction(ns, 10 ** 9) - frac(tf.from_bits(rw[0]))) > Fraction(1, 10 ** 9) + Fraction(1, 2 ** 50):
+                ctx.fail(c, "bag-header-stamp-within-1ns", f"pose {i}: {tf.from_bits(rw[0])!r} stored as ({sec}, {ns})")
                 break
     if impl["frame"] != c["frame"]:
         ctx.fail(c, "bag-frame-id", f"written {c['frame']!r}, read {impl['frame']!r}")
@@ -630,12 +709,16 @@ OPEN = ["zip / npy / pandas / rosbags serialisation are libraries: bit-exact dif
         "the sign of zero does not exist in the rational model: -0.0 is covered by the bit-pattern oracle, not by the theorem",
         "lone surrogates in info strings are outside the modelled domain",
         "the ROS2 bag writer cannot be constructed the way evo calls it with the installed rosbags (needs version=): only ROS1 is exercised",
-        "bag_stamp_error (|x' - x| <= 1 ns for every stamp in [0, 2^31)): proved only for whole-second stamps (bag_stamp_error_partial); for all other stamps the model of the sec/nanosec arithmetic is compared bit-for-bit with evo and the 1 ns bound is checked by the oracle on every generated stamp",
-        "df_roundtrip: the DataFrame column <-> slot map is checked differentially (every column against its array slot), not modelled"]
+        "bag stamps: proved |x' - x| <= 1 ns + x*2^-53 + 2^-50 and <= 2 ns + 2^-49 for every binary64 stamp in [0, 2^31), and x' = x when "
+        "2^(e-1) > 2 ns (all stamps >= 2^25 s); the literal '<= 1 ns' of the property cannot hold for doubles whose spacing exceeds 1 ns "
+        "other than as x' = x, which is what the oracle observes",
+        "archive member names: array/trajectory names that are empty or contain '/' are outside the domain (Path(...).stem cuts them): not generated"]
 
 
 def check(ctx):
-    lean = core.lean_side(ctx.prop, ctx.tier, pre_build=lambda: formats.generate(core.REPO, core.LEAN))
+    lean = core.lean_side(ctx.prop, ctx.tier, pre_build=lambda: {**formats.generate(core.REPO, core.LEAN),
+                                                                 **dfcols.generate(core.REPO, core.LEAN)})
+    core.drift(ctx, MODELLED)
     cases = list(gen_cases(ctx))
     evaluate(ctx, cases)
     core.shrink_all(ctx, shrink, evaluate)
